@@ -516,7 +516,7 @@ class FileWriter:
         self.cuts += list(range(spos + 1, epos + 3))
         self.last_startxref = off
 
-    def xref_stream(self, num, entries, trailer, widths=(1, 4, 2), index_split=None, flt=True, with_startxref=True):
+    def xref_stream(self, num, entries, trailer, widths=(1, 4, 2), index_split=None, flt=True, with_startxref=True, dict_hook=None):
         """Cross-reference stream object ``num`` covering ``entries``.
 
         entries: {num: ('n', off, gen) | ('c', objstm num, index) | ('f', next, gen)}
@@ -563,6 +563,11 @@ class FileWriter:
             raw = zlib.compress(raw)
             d[b"Filter"] = Name(b"FlateDecode")
         d[b"Length"] = len(raw)
+        if dict_hook is not None:
+            import copy
+
+            d = copy.deepcopy(d)  # values may be shared with the caller's trailer
+            dict_hook("xref", d)
         self.marks["xref"] = off
         self.add_object(num, Stream(d, raw), wild=False)
         if with_startxref:
